@@ -204,15 +204,17 @@ class InvertContract:
 
         T = self.T
         M, v = snp._obj(matrix), snp._obj(vector)
-        key = (M.shape, tuple(repr(e) for e in M.flat), tuple(repr(e) for e in v.flat))
-        if key in self.memo:
-            return self.memo[key].copy()
         rows, n = M.shape
         c = sym.ctx()
         g = np.empty(n, dtype=object)
         for i in range(n):
             g[i] = sym.XR(z3.Real(c.fresh_name("lsq")))
         g = g.view(snp.SymArray)
+        # the solve is a function: equal systems (semantically, not only syntactically) have equal solutions
+        for (M0, v0, g0) in self.memo.get((rows, n), []):
+            same_args = T.all([T.same(M[k, i], M0[k, i]) for k in range(rows) for i in range(n)] + [T.same(v[k], v0[k]) for k in range(rows)])
+            c.assume(T.implies(same_args, T.all([T.same(g[i], g0[i]) for i in range(n)])))
+        self.memo.setdefault((rows, n), []).append((M.copy(), v.copy(), g.copy()))
         MtM = [[T.total([M[k, i] * M[k, j] for k in range(rows)]) for j in range(n)] for i in range(n)]
         Mtv = [T.total([M[k, i] * v[k] for k in range(rows)]) for i in range(n)]
         for x in self.ghosts:
@@ -220,6 +222,5 @@ class InvertContract:
                 continue
             normal = T.all([T.same(T.total([MtM[i][j] * x[j] for j in range(n)]), Mtv[i]) for i in range(n)])
             c.assume(T.implies(normal, T.all([T.same(g[i], x[i]) for i in range(n)])))
-        self.memo[key] = g
         self.calls.append((matrix, vector))
         return g.copy()
